@@ -31,12 +31,12 @@ func NewWorkspace(c *Ctx) (*Workspace, error) {
 		return nil, err
 	}
 	files := map[string]string{
-		"go.mod":         "module " + ModPath + "\n\ngo 1.21\n\nrequire (\n\tgithub.com/google/wire v0.0.0\n\t" + ExtModPath + " v0.0.0\n)\n\nreplace github.com/google/wire => ./wiremod\n\nreplace " + ExtModPath + " => ./extmod\n",
-		"wiremod/go.mod": "module github.com/google/wire\n\ngo 1.21\n",
-		"extmod/go.mod":  "module " + ExtModPath + "\n\ngo 1.21\n\nrequire github.com/google/wire v0.0.0\n",
-		"extmod/ext.go":  "// Package ext is the root of a third-party module the programs may depend on.\npackage ext\n",
+		"go.mod":          "module " + ModPath + "\n\ngo 1.21\n\nrequire (\n\tgithub.com/google/wire v0.0.0\n\t" + ExtModPath + " v0.0.0\n)\n\nreplace github.com/google/wire => ./wiremod\n\nreplace " + ExtModPath + " => ./extmod\n",
+		"wiremod/go.mod":  "module github.com/google/wire\n\ngo 1.21\n",
+		"extmod/go.mod":   "module " + ExtModPath + "\n\ngo 1.21\n\nrequire github.com/google/wire v0.0.0\n",
+		"extmod/ext.go":   "// Package ext is the root of a third-party module the programs may depend on.\npackage ext\n",
 		"wiremod/wire.go": string(marker),
-		"trace/trace.go": TraceSource,
+		"trace/trace.go":  TraceSource,
 	}
 	if err := WriteTree(dir, files); err != nil {
 		return nil, err
@@ -93,9 +93,9 @@ type ProgObs struct {
 	// this program (shared by all programs of the group).
 	GroupStderr string
 	GroupStdout string
-	Pkgs   map[string]*PkgResult
-	Alone  bool
-	Dur    time.Duration
+	Pkgs        map[string]*PkgResult
+	Alone       bool
+	Dur         time.Duration
 }
 
 // Failed reports whether any package of the program failed.
